@@ -28,7 +28,8 @@ impl SocketAddr {
 pub struct ServerStatus {}
 pub struct MetaMap {}
 pub struct ExtraMap {}
-impl Default for ExtraMap { #[verifier::external_body] fn default() -> ExtraMap { unimplemented!() } }
+pub uninterp spec fn default_extra() -> ExtraMap;
+impl Default for ExtraMap { #[verifier::external_body] fn default() -> (r: ExtraMap) ensures r == default_extra() { unimplemented!() } }
 pub struct CryptoError {}
 pub struct ReqwestError {}
 pub struct AdapterError {}
@@ -75,8 +76,16 @@ impl vstd::std_specs::convert::FromSpecImpl<AdapterError> for PError { open spec
 impl From<AdapterError> for PError { fn from(e: AdapterError) -> (r: PError) { PError::AdapterError(e) } }
 /// `impl From<std::io::Error> for Error` and `impl From<passage_packets::Error> for Error` (error.rs): total
 /// functions; which variant they produce is not used by any contract (only that the result is an error).
+/// `impl From<std::io::Error> for Error` (error.rs) sorts by ErrorKind into ConnectionClosed / InternalIo (assumed)
+pub uninterp spec fn io_conv(e: IoError) -> PError;
+pub broadcast axiom fn axiom_io_conv(e: IoError)
+    ensures (#[trigger] io_conv(e)) is ConnectionClosed || io_conv(e) is InternalIo;
+impl vstd::std_specs::convert::FromSpecImpl<IoError> for PError { open spec fn obeys_from_spec() -> bool { true } open spec fn from_spec(e: IoError) -> PError { io_conv(e) } }
 impl From<IoError> for PError { #[verifier::external_body] fn from(e: IoError) -> (r: PError) { unimplemented!() } }
 impl From<Error> for PError { #[verifier::external_body] fn from(e: Error) -> (r: PError) { unimplemented!() } }
+
+/// `impl<T> From<T> for T` is the identity (std)
+pub assume_specification<T>[<T as From<T>>::from](t: T) -> (r: T) ensures r == t;
 
 // ------------------------------------------------------------------ adapters as oracles
 // Each adapter call is a deterministic uninterpreted function of its arguments. Nothing is lost for
@@ -106,16 +115,25 @@ impl Loca { #[verifier::external_body] pub fn localize(&self, locale: Option<&st
 // ------------------------------------------------------------------ crypto / cookie / json
 pub uninterp spec fn rsa_decrypt(ct: Seq<u8>) -> Result<Vec<u8>, CryptoError>;
 pub uninterp spec fn pub_key() -> Seq<u8>;
-pub uninterp spec fn json_auth(c: AuthCookie) -> Seq<char>;
+/// what serde_json prints depends on the *content* of a cookie (strings by value), not on object identity
+pub struct AuthView { pub timestamp: u64, pub client_addr: SocketAddr, pub user_name: Seq<char>, pub user_id: Uuid, pub target: Option<Seq<char>>, pub props: Vec<ProfileProperty>, pub extra: ExtraMap }
+pub open spec fn auth_view(c: AuthCookie) -> AuthView {
+    AuthView { timestamp: c.timestamp, client_addr: c.client_addr, user_name: c.user_name@, user_id: c.user_id, target: opt_str(c.target), props: c.profile_properties, extra: c.extra }
+}
+pub struct SessionView { pub id: Uuid, pub server_address: Seq<char>, pub server_port: u16, pub trace_id: Option<Seq<char>> }
+pub open spec fn session_view(c: SessionCookie) -> SessionView {
+    SessionView { id: c.id, server_address: c.server_address@, server_port: c.server_port, trace_id: opt_str(c.trace_id) }
+}
+pub uninterp spec fn json_auth(c: AuthView) -> Seq<char>;
 pub uninterp spec fn parse_auth(b: Seq<u8>) -> Result<AuthCookie, JsonError>;
-pub uninterp spec fn json_session(c: SessionCookie) -> Seq<char>;
+pub uninterp spec fn json_session(c: SessionView) -> Seq<char>;
 pub uninterp spec fn parse_session(b: Seq<u8>) -> Result<SessionCookie, JsonError>;
 pub uninterp spec fn json_status(c: Option<ServerStatus>) -> Seq<char>;
 
 pub mod crypto {
     use super::*;
     pub use super::CryptoError as Error;
-    #[verifier::external_body] pub fn encoded_pub() -> (r: &'static Vec<u8>) ensures r@ == pub_key() { unimplemented!() }
+    #[verifier::external_body] pub fn encoded_pub() -> (r: &'static Vec<u8>) ensures r@ == pub_key(), r@.len() <= 0xffff { unimplemented!() }
     #[verifier::external_body] pub fn private_key() -> &'static PrivKey { unimplemented!() }
     /// fresh random 32 bytes: any value
     #[verifier::external_body] pub fn generate_token() -> Result<VerifyToken, CryptoError> { unimplemented!() }
@@ -125,9 +143,9 @@ pub mod crypto {
     #[verifier::external_body] pub fn verify_token(expected: VerifyToken, actual: &[u8]) -> (r: bool) ensures r == (expected@ == actual@) { unimplemented!() }
 }
 // serde_json (de)serialisation of the cookie / status types: uninterpreted (see U1 prelude, mod serde_json)
-impl serde_json::JsonSer for AuthCookie { open spec fn json_text(&self) -> Seq<char> { json_auth(*self) } }
+impl serde_json::JsonSer for AuthCookie { open spec fn json_text(&self) -> Seq<char> { json_auth(auth_view(*self)) } }
 impl serde_json::JsonDe for AuthCookie { open spec fn json_parse(b: Seq<u8>) -> Result<AuthCookie, JsonError> { parse_auth(b) } }
-impl serde_json::JsonSer for SessionCookie { open spec fn json_text(&self) -> Seq<char> { json_session(*self) } }
+impl serde_json::JsonSer for SessionCookie { open spec fn json_text(&self) -> Seq<char> { json_session(session_view(*self)) } }
 impl serde_json::JsonDe for SessionCookie { open spec fn json_parse(b: Seq<u8>) -> Result<SessionCookie, JsonError> { parse_session(b) } }
 impl serde_json::JsonSer for Option<ServerStatus> { open spec fn json_text(&self) -> Seq<char> { json_status(*self) } }
 
@@ -199,6 +217,11 @@ impl Reader {
     { let r = Reader { data, pos: 0 }; proof { assert(r.rest() =~= data@); } r }
 }
 
+/// cookie timestamps are seconds since 1970 and far below 2^63 (assumption; only holders of the secret can
+/// produce a cookie that passes the tag check at all)
+pub broadcast axiom fn axiom_cookie_timestamp(b: Seq<u8>)
+    ensures #[trigger] parse_auth(b) matches Ok(c) ==> c.timestamp < 0x8000_0000_0000_0000;
+
 /// Rust guarantees that no allocation exceeds isize::MAX bytes (trusted language invariant)
 pub broadcast axiom fn axiom_vec_u8_len(v: Vec<u8>)
     ensures #[trigger] v@.len() <= isize::MAX;
@@ -219,6 +242,7 @@ pub open spec fn extends(old_ev: Seq<Ev>, new_ev: Seq<Ev>) -> bool {
     &&& forall |i: int| #![trigger new_ev[i]] #![trigger old_ev[i]] 0 <= i < old_ev.len() ==> new_ev[i] == old_ev[i]
 }
 /// the keep-alive id that is unanswered after `ev`
+#[verifier::opaque]
 pub open spec fn outstanding(ev: Seq<Ev>) -> Option<u64>
     decreases ev.len()
 {
